@@ -252,6 +252,15 @@ def gen_cut(g, ks, per0, only_cuts=None):
                    {"family": "cut: prefix -> Ok(None); rest appended to the same buffer -> the message, buffer empty",
                     "kind": k.what, "frame_len": k.n,
                     "cuts": ["whole" if c >= k.n else c for c in chunk]}, unwind=6)
+        if k.n >= 16:
+            # concrete-id twins, same grouping
+            for i in range(0, len(cuts), per):
+                chunk = cuts[i:i + per]
+                stmts = ["unsafe { FIXED_ID = true; }", f"let s = <{k.rust} as Kind>::spec();"] + [cut_stmt(k, c) for c in chunk]
+                g.emit(f"c10_cutfix_{k.name}_{i // per}", f"cutfix:{k.name}", stmts,
+                       {"family": "cut with a FIXED 16-byte id (twin of the symbolic-id cut harnesses): fails fast where a decoder defect "
+                                  "makes the symbolic-id scenario intractable",
+                        "kind": k.what, "frame_len": k.n, "cuts": ["whole" if c >= k.n else c for c in chunk]}, unwind=6)
 
 
 def gen_two(g, pairs, per0):
